@@ -59,6 +59,12 @@ func runERRFLOW(c *Ctx) {
 			pos := P.InstrPos(ci)
 			what := fmt.Sprintf("error of %s in %s", name, ir.FuncName(fn))
 			if why, ok := exceptionFor(c, fn, func(n string) (string, bool) { w, ok := errflowExceptions[n]; return w, ok }, 0); ok {
+				// the exception lets the function drop the error, not act on what came back with it
+				if isCall && !valuesUsedOnlyUnderNilErr(call, ei) {
+					c.Violation(fn, pos, "result of "+name+" used although its error was not checked",
+						"the value returned together with the error is used (compared, branched on) where the error may be non-nil: a failing "+name+" hands back a zero value, and acting on it — here: panicking because the keys look out of order — turns the callback's failure into a crash")
+					continue
+				}
 				c.OK(pos, what, "exception: "+why, false)
 				continue
 			}
@@ -268,6 +274,40 @@ func stashChecked(fn *ssa.Function, errV ssa.Value) (ssa.Instruction, bool) {
 	if len(cells) == 0 {
 		return nil, false
 	}
+	// the stash is sticky: the closure may run many times (once per probe of the search), so a later successful call
+	// must not overwrite a recorded failure — every store into the variable is either a constructed (non-nil) error or
+	// happens where the variable is known to be nil still
+	for _, b := range fn.Blocks {
+		for _, ins := range b.Instrs {
+			st, ok := ins.(*ssa.Store)
+			if !ok {
+				continue
+			}
+			fv, ok := st.Addr.(*ssa.FreeVar)
+			if !ok || !cells[bindingOf(fv)] {
+				continue
+			}
+			if call, isCall := st.Val.(*ssa.Call); isCall {
+				if sc := ir.Callee(call.Call); sc != nil && (sc.String() == "fmt.Errorf" || sc.String() == "errors.New") {
+					continue
+				}
+			}
+			stillNil := ir.FlowFact(st, func(fc ir.Fact) bool {
+				tv, tnn, isNil := ir.NilTest(fc.Cond)
+				if !isNil || fc.Truth == tnn {
+					return false
+				}
+				ld, isLd := tv.(*ssa.UnOp)
+				return isLd && ld.Op == token.MUL && ld.X == ssa.Value(fv)
+			}, func(i ssa.Instruction) bool {
+				o, isSt := i.(*ssa.Store)
+				return isSt && o != st && o.Addr == ssa.Value(fv)
+			})
+			if !stillNil {
+				return nil, false
+			}
+		}
+	}
 	// the call in the parent that is handed the closure
 	var runs []ssa.CallInstruction
 	for _, b := range parent.Blocks {
@@ -369,4 +409,56 @@ func closureIsArgument(fn *ssa.Function) bool {
 		}
 	}
 	return false
+}
+
+// valuesUsedOnlyUnderNilErr: every use of a non-error result of the call sits where the call's error result is known
+// to be nil (a dominating test, or a must-dataflow of such tests).
+func valuesUsedOnlyUnderNilErr(call *ssa.Call, ei int) bool {
+	if call.Referrers() == nil {
+		return true
+	}
+	var errV ssa.Value
+	var vals []*ssa.Extract
+	for _, r := range *call.Referrers() {
+		if ex, ok := r.(*ssa.Extract); ok {
+			if ex.Index == ei {
+				errV = ex
+			} else {
+				vals = append(vals, ex)
+			}
+		}
+	}
+	for _, v := range vals {
+		if v.Referrers() == nil {
+			continue
+		}
+		for _, u := range *v.Referrers() {
+			if _, isDbg := u.(*ssa.DebugRef); isDbg {
+				continue
+			}
+			if errV == nil {
+				return false
+			}
+			if nilFactOn(u.Block(), errV, true) || errNilByFlow(u, errV) {
+				continue
+			}
+			// a φ merging the value is a use at the end of the predecessor: accept if every later real use is checked
+			if phi, isPhi := u.(*ssa.Phi); isPhi && phi.Referrers() != nil {
+				okPhi := true
+				for _, u2 := range *phi.Referrers() {
+					if _, isDbg := u2.(*ssa.DebugRef); isDbg {
+						continue
+					}
+					if !(nilFactOn(u2.Block(), errV, true) || errNilByFlow(u2, errV)) {
+						okPhi = false
+					}
+				}
+				if okPhi {
+					continue
+				}
+			}
+			return false
+		}
+	}
+	return true
 }
